@@ -1,6 +1,6 @@
 """copies round-2 seeds from /tmp/seeds2/Cxx/mK to /verif/seeded/Cxx-mK (patch.diff, demo.*, meta.json)"""
 import os, shutil, glob, sys
-for d in sorted(glob.glob('/tmp/seeds2/C*/m*') + glob.glob('/tmp/seeds3/C*/m*')):
+for d in sorted(glob.glob('/tmp/seeds2/C*/m*') + glob.glob('/tmp/seeds3/C*/m*') + glob.glob('/tmp/seeds4/C*/m*')):
     prop = d.split('/')[-2]; k = d.split('/')[-1]
     dst = '/verif/seeded/%s-%s' % (prop, k)
     if os.path.exists(os.path.join(dst, 'patch.diff')): continue
